@@ -11,6 +11,7 @@ must equal those of a single run(n).
 Splits are also executed with all generator objects prepared before the first is consumed, with one observer detached
 and another attached between two pieces, and a simulation rebuilt from its dictionary is continued through each entry
 point and must perform exactly the requested steps.
+Observer sets also hold several observers of one class with the same interval: each one fires.
 """
 from __future__ import annotations
 
@@ -32,7 +33,7 @@ ASSUMPTIONS = [
     "a negative interval -n fires exactly once, after step n, if the run reaches step n",
     "srun exists on the Monte Carlo drivers only; force-bias drivers are driven through run and irun",
 ]
-REQUIRED = {"splits_with_observers_detached_and_attached": 100, "splits_prepared_before_use": 100, "rebuilt_continuations": 60, "splits_checked": 300, "zero_length_pieces": 100, "observer_logs_checked": 800, "negative_interval_logs": 200, "header_checks": 300, "step_invocations_counted": 1000}
+REQUIRED = {"logs_of_observers_equal_to_an_earlier_one": 100, "splits_with_observers_detached_and_attached": 100, "splits_prepared_before_use": 100, "rebuilt_continuations": 60, "splits_checked": 300, "zero_length_pieces": 100, "observer_logs_checked": 800, "negative_interval_logs": 200, "header_checks": 300, "step_invocations_counted": 1000}
 SHARD_TIMEOUT = {"quick": 900, "thorough": 3000}
 
 STEP_COUNT = {"n": 0}
@@ -96,7 +97,8 @@ def install_step_counter():
         cls.step = step
 
 
-OBS_SETS = [(1, 2, 3, 7, -1, -2, -3, -7), (2, 3), (3, -4), (4, 6, -5), (2, 7, -3), (5,), (-2,), (3, 5, -7), (2, 4, -6), (6, -1)]
+# several observers may well have the same class and the same settings (two recorders with one interval): each fires
+OBS_SETS = [(1, 2, 3, 7, -1, -2, -3, -7), (2, 3), (3, -4), (4, 6, -5), (2, 7, -3), (5,), (-2,), (3, 5, -7), (2, 4, -6), (6, -1), (2, 2), (3, -4, 3, -4), (1, 1, 1, -2, -2)]
 
 
 def execute(w, seed, pieces, entries, log_interval, obs_set=OBS_SETS[0], default_observers=True, prepared=False, swap_after=None):
@@ -128,10 +130,11 @@ def execute(w, seed, pieces, entries, log_interval, obs_set=OBS_SETS[0], default
             kw["restart_file"] = rst
     mc, _ = sims.build({**w, "seed": seed}, **kw)
     obs = {}
-    for iv in obs_set:
+    for k_, iv in enumerate(obs_set):
         o = RecObs(mc, iv)
-        mc.file_manager.attach_observer(f"rec{iv}", o)
-        obs[iv] = o
+        first = iv not in obs_set[:k_]
+        mc.file_manager.attach_observer(f"rec{iv}" if first else f"rec{iv}again{k_}", o)
+        obs[iv if first else f"{iv}#{k_}"] = o
     STEP_COUNT["n"] = 0
     yielded = 0
     if prepared:
@@ -234,10 +237,14 @@ def run(spec):
                 if calls != exp:
                     rec.viol(f"C15/observer-schedule/attached-between-runs/{shape}", f"an observer of interval 1 attached after step {sw['at_step']} was called at steps {calls}, expected {exp}", {**wit, "calls": calls, "expected": exp})
                 continue
+            key_ = iv
+            if isinstance(iv, str):  # a second observer with the same class and settings as an earlier one
+                iv = int(iv.split("#")[0])
+                rec.count("logs_of_observers_equal_to_an_earlier_one")
             if iv < 0:
                 rec.count("negative_interval_logs")
             exp = expected_calls(iv, n)
-            if sw and iv == sw["detached"]:
+            if sw and key_ == sw["detached"]:
                 exp = [x for x in exp if x <= sw["at_step"]]
             if calls != exp:
                 sign = "positive" if iv > 0 else "negative"
